@@ -194,36 +194,50 @@ def run_transcripts(ctx, bins, cases, tag):
         outs[cfg] = symlib.run_lines(bins[cfg], lines, timeout=1500)
     log(f"[transcript] {tag}: {len(cases)} cases x {len(CONFIGS)} configurations in {time.time()-t0:.1f}s, {len(outs['default'])} lines each")
     by_case = {c["id"]: c for c in cases}
+    maps = {cfg: {} for cfg in CONFIGS}
+    for cfg in CONFIGS:
+        for l in outs[cfg]:
+            d = strip(l)
+            maps[cfg][d["id"]] = d
     ref = [strip(l) for l in outs["default"]]
-    for cfg in CONFIGS[1:]:
-        if len(outs[cfg]) != len(ref):
-            raise ToolError(f"transcript of {cfg} has {len(outs[cfg])} lines, default has {len(ref)}")
     classes = set()
     ndiff = 0
-    for i, r in enumerate(ref):
+    enc_differs = set()      # (case id, cfg): compression already differs, the mutated streams are not comparable
+    for r in ref:
         classes.add(classify(r))
         ctx.add("evaluations", len(CONFIGS))
         if r.get("dec", "").startswith("err") or r.get("dec") == "panic":
             ctx.add("error_outcomes")
+        cid = r["id"].split("/")[0]
         for cfg in CONFIGS[1:]:
-            o = strip(outs[cfg][i])
+            if (cid, cfg) in enc_differs:
+                ctx.add("lines_skipped_after_encode_difference")
+                continue
+            o = maps[cfg].get(r["id"])
             if o == r:
                 continue
             ndiff += 1
+            if o is None:
+                o = {"id": r["id"], "missing": True}
             fields = sorted(k for k in set(r) | set(o) if r.get(k) != o.get(k))
-            cid = r["id"].split("/")[0]
             case = dict(by_case[cid])
             m = r.get("mut")
             if m is not None:
                 case["muts"] = [m]
             stage = "decode_corrupt" if m is not None else ("encode" if r.get("stream") != o.get("stream") or r.get("enc") != o.get("enc") or r.get("clen") != o.get("clen") else "decode_valid")
+            if stage == "encode":
+                enc_differs.add((cid, cfg))
             sig = {"check": "transcript", "fmt": case.get("fmt"), "mut": (m or {}).get("k", "none"), "stage": stage,
                    "fields": "+".join(fields), "pair": f"default-vs-{cfg}",
                    "opt_differs": cfg in ("noopt", "nostd"), "std_differs": cfg in ("nostd", "nostd_opt")}
             ctx.violation(f"transcripts differ between the default build and `{cfg}` for case {r['id']} "
-                          f"({case.get('fmt')}, mutation {m}): default {json.dumps({k: r.get(k) for k in fields})} vs "
+                          f"({case.get('fmt')}, mutation {m}, {stage}): default {json.dumps({k: r.get(k) for k in fields})} vs "
                           f"{cfg} {json.dumps({k: o.get(k) for k in fields})}",
                           sig, {"case": case, "line": r["id"], "configs": ["default", cfg]})
+    for cfg in CONFIGS[1:]:
+        extra = [i for i in maps[cfg] if i not in maps["default"] and (i.split("/")[0], cfg) not in enc_differs]
+        if extra:
+            raise ToolError(f"transcript of {cfg} has lines the default build lacks although compression agreed: {extra[:5]}")
     ctx.sample(f"{tag}: {len(ref)} transcript lines identical in {len(CONFIGS)} configurations except {ndiff} differing")
     return classes, len(ref), ndiff
 
@@ -630,7 +644,9 @@ def run(tier, replay=None):
 
 
 def run_replay(ctx, path):
+    """Re-runs the scenario of a replay file written by ctx.violation and re-judges it with the same oracle."""
     rp = json.load(open(path))["replay"]
+    std_cfgs = {"default": (None, None), "noopt": (["std"], "noopt")}
     if "case" in rp:
         bins = binaries()
         line = json.dumps(rp["case"])
@@ -643,12 +659,42 @@ def run_replay(ctx, path):
                     print(f"default: {json.dumps(a)}\n{cfg}: {json.dumps(b)}")
                     ctx.violation(f"replay: transcripts differ between default and {cfg} for {a['id']}", {"check": "transcript", "replay": True}, rp)
         if not bad:
-            print("replay: transcripts identical in all configurations")
-    elif "job" in rp:
+            print("replay: transcripts identical in all configurations: " + json.dumps(outs["default"]))
+    elif "job" in rp and rp["job"].get("op") == "h4bits":
         j = rp["job"]
-        feats = {"default": (None, None), "noopt": (["std"], "noopt")}
-        for name, (f, t) in feats.items():
+        exp = portable_model(j["buf"], j["pos"], j["range"], j["code"], j["count"])
+        for name, (f, t) in std_cfgs.items():
             r = symlib.run_sym_jobs([j], features=f, target=t)[0]
-            r.pop("events", None)
-            print(name, json.dumps(r)[:2000])
+            for variant in ("portable", "dispatch"):
+                ok = r[variant] == exp
+                print(f"{name} {variant}: {r[variant]} {'= specification' if ok else '!= specification ' + json.dumps(exp)}")
+                if not ok:
+                    ctx.violation(f"replay: decode_direct_bits ({variant}, build {name}) differs from the specification", {"check": "h4_direct_bits", "replay": True}, rp)
+    elif "job" in rp and rp["job"].get("op") == "h4norm":
+        j = rp["job"]
+        exp = [max(p - j["off"], 0) for p in j["arr"]]
+        for name, (f, t) in std_cfgs.items():
+            r = symlib.run_sym_jobs([j], features=f, target=t)[0]
+            for v in r["variants"]:
+                for variant in ("scalar", "dispatch", "avx2", "sse41"):
+                    if v[variant] is not None and v[variant] != exp:
+                        print(f"{name} {variant} shift {v['shift']}: {v[variant]} != {exp}")
+                        ctx.violation(f"replay: normalize variant {variant} (build {name}) does not refine max(p - off, 0)", {"check": "h4_normalize", "replay": True}, rp)
+        print("replay: normalize variants compared with max(p - off, 0)")
+    elif "job" in rp and rp["job"].get("op") == "roundtrip":
+        j = rp["job"]
+        rs = {name: symlib.run_sym_jobs([j], features=f, target=t)[0] for name, (f, t) in std_cfgs.items()}
+        ev = lambda r: [e for e in r.get("events", []) if e.get("side") in ("E", "D", "L")]
+        same = rs["default"].get("digest") == rs["noopt"].get("digest") and ev(rs["default"]) == ev(rs["noopt"])
+        print("replay: builds agree" if same else "replay: builds differ")
+        if not same:
+            ctx.violation("replay: builds default and noopt take different symbol decisions / decoder steps", {"check": "symbol_trace_diff", "replay": True}, rp)
+    elif "job" in rp and "behaviour" in rp:
+        j = rp["job"]
+        kind = j["fmt"]
+        for name, (f, t) in std_cfgs.items():
+            st = symlib.lzdecoder_replay(ctx, kind, {"B": str(j.get("dict", 16)), "SizeKnown": "TRUE" if j.get("size_known") else "FALSE"}, 1, 0,
+                                         name=f"replay@{name}", features=f, target=t, behaviours=[rp["behaviour"]])
+            st.pop("events_runs", None)
+            print(name, st)
     ctx.finish()
